@@ -147,7 +147,12 @@ func runScenario1(name string, cfgSeed uint64, ch func(int, []int) int, grace ti
 				cfg.writers[i].rounds = 1
 			}
 		}
+		if rng.Chance(40) {
+			cfg = directedSnapCfg(rng)
+		}
 		return runSnap(cfg, ch, grace)
+	case "snapd": // the directed snapshot configurations, by number (coarse depth-first enumeration)
+		return runSnap(directedSnapCfgN(int(cfgSeed%nDirectedSnap), rng), ch, grace)
 	case "keys":
 		return runKeys(int(cfgSeed%6), ch, grace)
 	case "ddl":
@@ -167,6 +172,9 @@ func cmdSched(args []string) {
 	seed := fs.Uint64("seed", 1, "seed")
 	n := fs.Int("n", 200, "random schedules per scenario")
 	dfs := fs.Int("dfs", 0, "additionally explore up to this many schedules depth-first for a few small configurations")
+	cfine := fs.Int("cdfs-fine", 0, "the same enumeration with the start of every block commit as a decision point, for the two-writer configurations: up to this many schedules each")
+	cfineSamples := fs.Int("cdfs-fine-samples", 0, "random schedules of that finer kind per two-writer configuration")
+	cdfs := fs.Int("cdfs", 0, "coarse depth-first enumeration (pre-emption only between whole protocol steps) of the directed snapshot configurations: up to this many schedules each")
 	scen := fs.String("scenarios", "rows,snap,ins", "scenarios")
 	out := fs.String("out", "", "output directory")
 	graceMs := fs.Int("grace-ms", 4, "grace period before a resumed thread counts as blocked")
@@ -180,7 +188,7 @@ func cmdSched(args []string) {
 	var lockTraces []string
 	var lockOrigin []string
 	record := func(name string, cfgSeed uint64, o *scenOut) {
-		if !strings.Contains(o.Desc, "ranger=true") && name != "ins" && name != "keys" && name != "ddl" {
+		if !strings.Contains(o.Desc, "ranger=true") && name != "ins" && name != "keys" && name != "ddl" && name != "snapd" {
 			for c, evs := range lockEvents(o.Trace) {
 				lockTraces = append(lockTraces, "["+strings.Join(evs, "; ")+"]")
 				lockOrigin = append(lockOrigin, fmt.Sprintf("%s:%d:chunk%d:%v", name, cfgSeed, c, o.Choices))
@@ -264,6 +272,58 @@ func cmdSched(args []string) {
 			}
 		}
 	}
+	if *cdfs > 0 && *replay == "" && strings.Contains(","+*scen+",", ",snap,") {
+		for k := 0; k < nDirectedSnap; k++ {
+			stack := [][]int{nil}
+			runs := 0
+			for len(stack) > 0 && runs < *cdfs {
+				plan := stack[len(stack)-1]
+				stack = stack[:len(stack)-1]
+				cc := &coarsePlanChooser{plan: plan, last: -1}
+				o := runScenario("snapd", uint64(k), cc.choose, coarseGrace)
+				record("snapd", uint64(k), o)
+				runs++
+				for d := len(plan); d < len(cc.dalts); d++ {
+					for alt := 1; alt < cc.dalts[d]; alt++ {
+						np := make([]int, d+1)
+						copy(np, plan)
+						np[d] = alt
+						stack = append(stack, np)
+					}
+				}
+			}
+			sum.Exhaustive[fmt.Sprintf("snapd:%d (coarse)", k)] = len(stack) == 0
+			sum.ByScenario[fmt.Sprintf("snapd:%d", k)] = runs
+		}
+		for k := 0; k < 3; k++ { // the two-writer configurations, finer
+			stack := [][]int{nil}
+			runs := 0
+			for len(stack) > 0 && runs < *cfine {
+				plan := stack[len(stack)-1]
+				stack = stack[:len(stack)-1]
+				cc := &coarsePlanChooser{plan: plan, last: -1, fine: true}
+				o := runScenario("snapd", uint64(k), cc.choose, coarseGrace)
+				record("snapd", uint64(k), o)
+				runs++
+				for d := len(plan); d < len(cc.dalts); d++ {
+					for alt := 1; alt < cc.dalts[d]; alt++ {
+						np := make([]int, d+1)
+						copy(np, plan)
+						np[d] = alt
+						stack = append(stack, np)
+					}
+				}
+			}
+			if *cfine > 0 {
+				sum.Exhaustive[fmt.Sprintf("snapd:%d (coarse, every block commit)", k)] = len(stack) == 0
+			}
+			rs := NewRng(*seed ^ uint64(0xf1e+k))
+			for i := 0; i < *cfineSamples; i++ {
+				cc := &coarsePlanChooser{last: -1, fine: true, rng: rs.Fork(uint64(i))}
+				record("snapd", uint64(k), runScenario("snapd", uint64(k), cc.choose, coarseGrace))
+			}
+		}
+	}
 	// the recorded latch protocol traces, for coq/Conc.v lock_check_all
 	const perShard = 400
 	for i := 0; i < len(lockTraces); i += perShard {
@@ -284,4 +344,39 @@ func cmdSched(args []string) {
 	sum.Wall = time.Since(t0).Seconds()
 	b, _ := json.MarshalIndent(sum, "", " ")
 	os.WriteFile(filepath.Join(*out, "summary.json"), b, 0o644)
+}
+
+// directedSnapCfg: small configurations in which the orderings that matter for a snapshot's cut are
+// few - one writer spanning both blocks, one or two writers on single blocks (some running twice):
+// which commit falls before / between / after the two block reads and the recorder's life time
+// threads pre-empted only between whole block steps never wait for one another's latches: a long
+// grace period costs nothing and keeps a slow step (the recorder's temporary file) from being
+// mistaken for a blocked one, which would make the enumeration's decision tree irreproducible
+const coarseGrace = 200 * time.Millisecond
+
+func directedSnapCfg(rng *Rng) rowsCfg { return directedSnapCfgN(rng.Intn(5), rng) }
+
+const nDirectedSnap = 5
+
+func directedSnapCfgN(k int, rng *Rng) rowsCfg {
+	// commits are replayed as absolute puts (a merge is logged as the merged result), so that a
+	// commit lost from the middle of a block's history only shows on a row no later commit of that
+	// block writes: the writers of one block use different rows
+	cfg := rowsCfg{rows: []uint32{0, 1, 16384, 16384 + 3}}
+	w := func(rows ...uint32) wspec {
+		return wspec{d: int64(1 + rng.Intn(9)), rows: rows}
+	}
+	switch k {
+	case 0:
+		cfg.writers = []wspec{w(0, 16387), w(16387)}
+	case 1:
+		cfg.writers = []wspec{w(0, 16387), w(1)}
+	case 2:
+		cfg.writers = []wspec{w(0), w(16387), w(1)}
+	case 3:
+		cfg.writers = []wspec{w(0, 16387), w(16384), w(1)}
+	default:
+		cfg.writers = []wspec{w(16387), w(0, 16384), w(1)}
+	}
+	return cfg
 }
